@@ -30,7 +30,7 @@ def run(ctx):
     ctx.rule("C11.3", "name dispatch: @ -> origin, trailing dot -> absolute, otherwise relative to the origin; * / *. prefix -> wildcard")
     ctx.rule("C11.4", "a SOA makes the zone authoritative at its owner; both insert paths clamp the TTL to max(soa.minimum, ttl)")
     ctx.rule("C11.5", "no parser error is discarded outside the documented back-tracking helper")
-    ctx.rule("C11.6", "tokeniser character classes vs writer escape classes (shared with C13.1)")
+    ctx.rule("C11.6", "tokeniser character classes vs writer escape classes (shared with C13.1); an escape is read as backslash-DDD = the octet DDD, backslash-X = X (shared with C13.2)")
     ctx.rule("C11.7", "record forms: the type may be preceded by 0..3 fields and each form is tried for every line long enough for it; a leading field is a TTL exactly when it is all digits, otherwise a name")
     ctx.rule("C11.8", "parentheses: `(` at the start of a token opens a continuation, `)` closes it, and a newline ends the entry in every unquoted state exactly when no parenthesis is open (tabulated from the tokeniser's MIR)")
     ctx.decline("that parsing yields exactly the denoted records for every rendering (value property)")
@@ -305,6 +305,12 @@ def run(ctx):
         ok = soa[0] == "agg" and soa[2] == "Some" and A.path_str(apex, open_root=True).endswith(".0.0") and A.path_str(dict(soa[3])["0"], open_root=True).endswith(".0.1")
         g, _ = c.guarded(b, lambda fc: fc[0] == "is" and fc[1] == "Some")
         ctx.check(ok and g, "C11.4", "soa=>authoritative-apex", "with a SOA: Zone::new(SOA owner, Some(soa))", "Zone::new called with (%s, %s)" % (A.show(apex)[:60], A.show(soa)[:60]), zd.loc(b))
+    # ... and the apex recorded with the SOA is the SOA record's own owner name (not the origin in force, not a constant)
+    for b, t in news:
+        apex = A.deep_payload(r.call_expr(t, b)[2][0])
+        ps = A.path_str(apex, open_root=True) or ""
+        ok_owner = A.peel(apex)[0] != "call" and ps.endswith(".rr.name") or (A.last_field(apex) == "name" and not any(x[0] == "call" and (x[1].endswith("::unwrap_or") or x[1].endswith("::unwrap_or_else")) for x in A.walk(apex)))
+        ctx.check(bool(ok_owner), "C11.4", "soa=>apex-is-owner", "the apex is the SOA record's owner name", "the apex recorded with the SOA is %s" % A.show(apex)[:120], zd.loc(b))
     for b, i in soa_store:
         e = r.rvalue(zd.blocks[b]["stmts"][i]["rv"], (b, i))
         ok = all(A.last_field(v) == k for k, v in e[3])
@@ -352,8 +358,26 @@ def run(ctx):
                               "Result of %s is propagated / matched" % A.short(callee), "parser error of %s is discarded via %s" % (A.short(callee), bad), f.loc(b))
     ctx.floor("C11.5", "fallible parser calls examined", n_try, 12)
 
+    # parse_entry hands its state on unchanged: every entry parser gets the origin in force (and parse_rr the inherited
+    # owner and TTL) - a directive is resolved against the same origin as a record
+    pe_ = prog.find("zones::deserialise::parse_entry")
+    per_ = A.Resolver(pe_)
+    n_disp = 0
+    for b, t in pe_.calls():
+        n_ = (t.get("callee") or "").rsplit("::", 1)[-1]
+        if n_ not in ("parse_origin", "parse_include", "parse_rr") or not (t.get("callee") or "").startswith("dns_types::zones::deserialise::"):
+            continue
+        n_disp += 1
+        e = per_.call_expr(t, b)
+        want = [("param", 1)] + ([("param", 2), ("param", 3)] if n_ == "parse_rr" else [])
+        got = [A.peel(a) for a in e[2][:len(want)]]
+        ctx.check(got == want, "C11.3", "parse_entry:passes-state:" + n_, "%s(origin%s, tokens)" % (n_, ", previous owner, previous TTL" if n_ == "parse_rr" else ""),
+                  "%s is called with %s" % (n_, [A.show(a)[:40] for a in e[2][:len(want)]]), pe_.loc(b))
+    ctx.floor("C11.3", "entry parsers called from parse_entry", n_disp, 3)
+
     # ---------------------------------------------------------------- C11.6
     C13.escape_rules(ctx, "C11.6")
+    C13.escape_reader_rules(ctx, "C11.6")
 
     # ---------------------------------------------------------------- C11.8
     from . import zonetext
